@@ -14,8 +14,9 @@ def main():
     from joblib.externals.loky.backend import resource_tracker as rt
     out = []
     for hi, hist in enumerate(job["hists"]):
-        d = os.path.join(job["dir"], "h%d" % hi); os.makedirs(os.path.join(d, "d"))
-        paths = {"f1": os.path.join(d, "f1"), "f2": os.path.join(d, "f2"), "d": os.path.join(d, "d"), "g": os.path.join(d, "d", "g")}
+        d = os.path.join(job["dir"], "h%d" % hi); os.makedirs(os.path.join(d, "d", "e")); os.makedirs(os.path.join(d, "h"))
+        paths = {"f1": os.path.join(d, "f1"), "f2": os.path.join(d, "f2"), "d": os.path.join(d, "d"), "g": os.path.join(d, "d", "g"),
+                 "e": os.path.join(d, "d", "e"), "h": os.path.join(d, "h")}
         for n in ("f1", "f2", "g"): open(paths[n], "w").write("x")
         never = os.path.join(d, "never_registered"); open(never, "w").write("x")
         trace = os.path.join(d, "trace.ndjson")
@@ -57,7 +58,7 @@ def main():
             if cmd == "GONE":
                 os.close(fds.pop(e["c"])); continue
             c = e["c"]
-            rtype = "folder" if e["x"] == "d" else "file"
+            rtype = "folder" if e["x"] in ("d", "e", "h") else "file"
             if cmd == "GARBAGE": os.write(fds[c], GARBAGE[k % len(GARBAGE)])
             else: os.write(fds[c], ("%s:%s:%s\n" % (cmd, paths[e["x"]], rtype)).encode())
             if not barrier(c):
@@ -79,7 +80,7 @@ def main():
             if not rec["problems"] and last is not None:
                 cnt = last["cnt"]; ex0 = set(last["ex"])
                 gone = {n for n in cnt if cnt[n] > 0}
-                if "d" in gone: gone.add("g")
+                if "d" in gone: gone.update(("g", "e"))
                 want = ex0 - gone
                 ex = {n for n, p in paths.items() if os.path.exists(p)}
                 if ex != want:
@@ -91,9 +92,9 @@ def main():
             except OSError: pass
         if job.get("hook") and os.path.exists(trace):
             evs = [json.loads(l) for l in open(trace)]
-            mine = [x for x in evs if x["ev"] in ("REGISTER", "UNREGISTER", "MAYBE_UNLINK") and "sentinel" not in x.get("name", "")]
-            reqs = [e for e in hist if e["cmd"] in ("REGISTER", "UNREGISTER", "MAYBE_UNLINK")][:len(mine)]
-            rec["count_mismatch"] = sum(1 for a, b in zip(mine, reqs) if a["count"] != b["cnt"][b["x"]])
+            mine = [x for x in evs if x["ev"] != "EOF" and "sentinel" not in x.get("name", "")]
+            reqs = [e for e in hist if e["cmd"] in ("REGISTER", "UNREGISTER", "MAYBE_UNLINK", "GARBAGE")][:len(mine)]
+            rec["count_mismatch"] = sum(1 for a, b in zip(mine, reqs) if a["ev"] != "error" and b["cmd"] != "GARBAGE" and a["count"] != b["cnt"][b["x"]])
             rec["hook_events"] = len(evs)
         out.append(rec)
         shutil.rmtree(d, ignore_errors=True)
